@@ -930,3 +930,71 @@ Theorem planar_distance_upper :
 Proof.
   unfold planar_n_k_d. cbv beta iota zeta. rewrite planar_logical_x_weight, planar_logical_z_weight. lia.
 Qed.
+
+(* ---- weight of the path between two real plaquettes = distance ---- *)
+Lemma in_walk k : forall d cur s, In s (walk k d cur) ->
+  exists j, 0 <= j < Z.of_nat k /\ s = (fst cur + (2 * j + 1) * fst d, snd cur + (2 * j + 1) * snd d).
+Proof.
+  induction k as [|k IH]; intros d cur s Hs; [destruct Hs|]. cbn [walk] in Hs. destruct Hs as [<-|Hs].
+  - exists 0. split; [lia|]. f_equal; ring.
+  - apply IH in Hs. destruct Hs as (j & Hj & ->). exists (j + 1). split; [lia|]. cbn [fst snd]. f_equal; ring.
+Qed.
+Lemma NoDup_walk k : forall d cur, dir d -> NoDup (walk k d cur).
+Proof.
+  induction k as [|k IH]; intros d cur Hd; cbn [walk]; constructor; [|now apply IH].
+  intros Hin. apply in_walk in Hin. destruct Hin as (j & Hj & Heq). cbn [fst snd] in Heq.
+  destruct Hd as [-> | [-> | [-> | ->]]]; cbn [fst snd] in Heq; injection Heq; lia.
+Qed.
+Lemma NoDup_app_disj {A} (l1 l2 : list A) : NoDup l1 -> NoDup l2 -> (forall x, In x l1 -> In x l2 -> False) -> NoDup (l1 ++ l2).
+Proof.
+  induction l1 as [|a l1 IH]; intros H1 H2 Hd; cbn; auto. inversion H1 as [|? ? Hn H1']; subst. constructor.
+  - intros Hin. apply in_app_iff in Hin. destruct Hin as [Hin|Hin]; [contradiction|]. apply (Hd a); cbn; auto.
+  - apply IH; auto. intros x Hx1 Hx2. apply (Hd x); cbn; auto.
+Qed.
+
+Lemma path_sites_real a rs cs : ptype a -> inb a = true -> inb (fst a + 2 * rs, snd a + 2 * cs) = true ->
+  NoDup (path_sites a rs cs) /\ forall s, In s (path_sites a rs cs) -> inb s = true.
+Proof.
+  intros Ha Hia Hib. destruct a as [r c]. unfold ptype in Ha. cbn [fst snd] in *. unfold path_sites.
+  set (kn := Z.to_nat (- rs)). set (ks := Z.to_nat rs). set (kw := Z.to_nat (- cs)). set (ke := Z.to_nat cs).
+  set (c1 := walk_end kn (-1, 0) (r, c)). set (c2 := walk_end ks (1, 0) c1). set (c3 := walk_end kw (0, -1) c2).
+  assert (E1 : c1 = (r - 2 * Z.of_nat kn, c)) by (unfold c1; rewrite walk_end_eq; cbn [fst snd]; f_equal; lia).
+  assert (E2 : c2 = (r + 2 * rs, c)) by (unfold c2; rewrite walk_end_eq, E1; cbn [fst snd]; f_equal; lia).
+  assert (E3 : c3 = (r + 2 * rs, c - 2 * Z.of_nat kw)) by (unfold c3; rewrite walk_end_eq, E2; cbn [fst snd]; f_equal; lia).
+  rewrite E1, E2, E3. rewrite !inb_unfold in *. cbn [fst snd] in *.
+  assert (D1 : dir (-1, 0)) by (unfold dir; auto). assert (D2 : dir (1, 0)) by (unfold dir; auto).
+  assert (D3 : dir (0, -1)) by (unfold dir; auto). assert (D4 : dir (0, 1)) by (unfold dir; auto).
+  split.
+  - repeat apply NoDup_app_disj; auto using NoDup_walk.
+    + intros x H1 H2. apply in_walk in H1, H2. destruct H1 as (j1 & Hj1 & ->), H2 as (j2 & Hj2 & Heq).
+      cbn [fst snd] in Heq. injection Heq. lia.
+    + intros x H1 H2. apply in_app_iff in H2. destruct H2 as [H2|H2];
+        apply in_walk in H1, H2; destruct H1 as (j1 & Hj1 & ->), H2 as (j2 & Hj2 & Heq);
+        cbn [fst snd] in Heq; injection Heq; lia.
+    + intros x H1 H2. apply in_app_iff in H2. destruct H2 as [H2|H2]; [|apply in_app_iff in H2; destruct H2 as [H2|H2]];
+        apply in_walk in H1, H2; destruct H1 as (j1 & Hj1 & ->), H2 as (j2 & Hj2 & Heq);
+        cbn [fst snd] in Heq; injection Heq; lia.
+  - intros s Hs. rewrite inb_unfold.
+    apply in_app_iff in Hs. destruct Hs as [Hs|Hs]; [|apply in_app_iff in Hs; destruct Hs as [Hs|Hs];
+      [|apply in_app_iff in Hs; destruct Hs as [Hs|Hs]]];
+      apply in_walk in Hs; destruct Hs as (j & Hj & ->); cbn [fst snd]; lia.
+Qed.
+
+Theorem planar_path_weight_real a b p d :
+  In a (plaquette_indices rows cols) -> In b (plaquette_indices rows cols) -> planar_is_primal a = planar_is_primal b ->
+  path rows cols a b (new_pauli rows cols) = Some p -> distance rows cols a b = Some d ->
+  Z.of_nat (bsf_wt (p_to_bsf p)) = d.
+Proof.
+  intros Hain Hbin Hpr. apply in_plaquette_indices in Hain, Hbin. destruct Hain as [Ha1 Ha2], Hbin as [Hb1 Hb2].
+  pose proof (proj2 (ptype_plaquette a) Ha1) as Ha. pose proof (proj2 (ptype_plaquette b) Hb1) as Hb.
+  assert (Hab : same_type a b).
+  { rewrite (primal_of_ptype a Ha), (primal_of_ptype b Hb) in Hpr. unfold same_type, ptype in *. lia. }
+  destruct (translation_cases a b Ha Hb Hab) as (rs & cs & Ht & Hcase).
+  unfold path, distance. rewrite Ht. intros Hp Hd. injection Hp as <-. injection Hd as <-.
+  destruct Hcase as [(Hia & _)|(_ & H1 & H2)]; [congruence|].
+  assert (Eb : (fst a + 2 * rs, snd a + 2 * cs) = b) by (destruct b; cbn [fst snd] in *; f_equal; lia).
+  destruct (path_sites_real a rs cs Ha Ha2 ltac:(now rewrite Eb)) as [Hnd Hin].
+  change (p_to_bsf (sites rows cols (path_op a) (path_sites a rs cs) (new_pauli rows cols)))
+    with (sop (path_op a) (path_sites a rs cs)).
+  rewrite sop_weight_nodup; auto using path_op_not_I, path_sites_sites. apply path_sites_length.
+Qed.
